@@ -123,6 +123,7 @@ func init() {
 		}
 		g := v.Gen(w, c, MixSwap)
 		g.MaxTx = 10
+		g.TightLimits = 0.6
 		g.Free(c.N(120, 400), func(i int) int64 {
 			if i%15 == 14 {
 				return 5
